@@ -513,8 +513,29 @@ def check_nonschema_decision(mod, name, fn, outs, params, rep, R, key0):
             continue
         conds = [(_expand_membership(c), pol) for c, pol in o.conds]
         path_vals.append((conds, ('const', o.result is not None)))
+    # `category ^ "text"` is False whenever both __xor__ begin by sending a non-category operand away: a premise spelt
+    # that way is vacuous, so a rule with or without the (dead) test decides the same
+    constraint = None
+    repo_ = getattr(mod, 'repo', None)
+    if repo_ is not None:
+        try:
+            cm_ = repo_.module('depccg/cat.py')
+            dead = True
+            for cname in ('Atom', 'Functor'):
+                fx = cm_.get(cname + '.__xor__', required=False)
+                body_ = [x for x in (fx.body if fx is not None else []) if not (isinstance(x, ast.Expr) and isinstance(x.value, ast.Constant))]
+                first = body_[0] if body_ else None
+                o_ = fx.args.args[1].arg if fx is not None and len(fx.args.args) > 1 else None
+                dead = dead and isinstance(first, ast.If) and src(first.test).replace(' ', '') == 'notisinstance(%s,%s)' % (o_, cname) and \
+                    len(first.body) == 1 and isinstance(first.body[0], ast.Return) and isinstance(first.body[0].value, ast.Constant) and first.body[0].value.value is False
+            if dead:
+                xor_atoms = [a_ for a_ in logic.atoms_of(f) if a_[0] == 'truthy' and a_[1][0] == 'binop' and a_[1][1] == '^' and a_[1][3][0] == 'const' and isinstance(a_[1][3][1], str)]
+                if xor_atoms:
+                    constraint = lambda sigma, xs=tuple(xor_atoms): not any(sigma.get(x_, False) for x_ in xs)
+        except AnalysisError:
+            constraint = None
     try:
-        ok, bad, atoms = logic.equivalent(path_vals, f)
+        ok, bad, atoms = logic.equivalent(path_vals, f, constraint)
     except ValueError as e:
         raise AnalysisError('%s: decision of %s has %s' % (mod.rel, name, e))
     detail = ''
